@@ -3,85 +3,148 @@ from __future__ import annotations
 
 import ast
 
-from sa import source
+from sa import pat, source
 from sa.cfg import cfg_of, guards
+from sa.classes import is_logging_stmt
+from sa.minieval import CannotEval, ev
 from sa.source import AnchorMissing, dotted, is_self_attr, last_attr, local_defs, params_of, short, u, walk_body
-from sa.sym import comparison
 
 _C = "esrally/client/context.py"
 _R = "esrally/driver/runner.py"
 _D = "esrally/driver/driver.py"
 
 
+_ABSENT = object()
+
+
+class _Stuck(Exception):
+    """the abstract run of a holder method left the interpreted fragment (or the code under analysis would raise)"""
+
+
+def _context_var(cls) -> str | None:
+    """name of the class-level ContextVar of the holder class (role: the attribute assigned from ContextVar(...))"""
+    for n in getattr(cls, "body", []):
+        if isinstance(n, ast.Assign) and isinstance(n.value, ast.Call) and last_attr(n.value.func) == "ContextVar" and isinstance(n.targets[0], ast.Name):
+            return n.targets[0].id
+    return None
+
+
+def _is_ctx_get(e, cv) -> bool:
+    """`<...>.<cv>.get()`: the current context's dict (a zero-argument get() is never dict.get)"""
+    return isinstance(e, ast.Call) and not e.args and not e.keywords and isinstance(e.func, ast.Attribute) and e.func.attr == "get" and isinstance(e.func.value, ast.Attribute) \
+        and (cv is None or e.func.value.attr == cv)
+
+
+def _evaluable(e, cv):
+    """copy of e in which the current-context read is the name __ctx__ and two-argument min()/max() are conditional expressions, so that minieval can evaluate it
+    (a None operand then fails the comparison exactly as min()/max() would raise)."""
+
+    class T(ast.NodeTransformer):
+        def visit_Call(self, n):
+            if _is_ctx_get(n, cv):
+                return ast.Name(id="__ctx__", ctx=ast.Load())
+            self.generic_visit(n)
+            if dotted(n.func) in ("min", "max") and len(n.args) == 2 and not n.keywords and not any(isinstance(a, ast.Starred) for a in n.args):
+                a, b = n.args
+                return ast.IfExp(test=ast.Compare(left=a, ops=[ast.LtE() if dotted(n.func) == "min" else ast.GtE()], comparators=[b]), body=a, orelse=b)
+            return n
+
+    return ast.fix_missing_locations(T().visit(source.clone(e)))
+
+
+def apply_update(func, new_name: str, new_val, state: dict, cv) -> dict:
+    """Abstract run of the holder method `func` with its value parameter bound to new_val on a copy of the context dict `state`; returns the dict afterwards.
+    Interprets assignments to locals / to keys of the context dict, if, pass, return and logging statements; anything else (or an evaluation failure) raises _Stuck."""
+    ctxd = dict(state)
+    env = {new_name: new_val, "__ctx__": ctxd}
+
+    def val(e):
+        try:
+            return ev(_evaluable(e, cv), env)
+        except CannotEval as x:
+            raise _Stuck(str(x))
+
+    class _Return(Exception):
+        pass
+
+    def block(stmts):
+        for s in stmts:
+            if is_logging_stmt(s) or isinstance(s, ast.Pass) or (isinstance(s, ast.Expr) and isinstance(s.value, ast.Constant)):
+                continue
+            if isinstance(s, ast.If):
+                block(s.body if val(s.test) else s.orelse)
+            elif isinstance(s, ast.Return):
+                raise _Return()
+            elif isinstance(s, ast.Assign) and len(s.targets) == 1 and isinstance(s.targets[0], ast.Name):
+                env[s.targets[0].id] = val(s.value)
+            elif isinstance(s, ast.Assign) and len(s.targets) == 1 and isinstance(s.targets[0], ast.Subscript):
+                d, k, v = val(s.targets[0].value), val(s.targets[0].slice), val(s.value)
+                if d is not ctxd:
+                    raise _Stuck(f"store into {u(s.targets[0].value)}")
+                d[k] = v
+            else:
+                raise _Stuck(f"statement {short(s, 60)}")
+
+    try:
+        block(func.body)
+    except _Return:
+        pass
+    return ctxd
+
+
+_REF = {"min": lambda c, n: n if c is _ABSENT else min(c, n), "max": lambda c, n: n if c is _ABSENT else max(c, n), "first": lambda c, n: n if c is _ABSENT else c, "last": lambda c, n: n}
+_CUR = (_ABSENT, 0.0, 5.0)  # reachable values of the recorded time (0.0: a recorded time is not 'missing' because it is falsy)
+_NEW = (0.0, 3.0, 5.0, 7.0)
+
+
 def merge_kind(func, key: str):
-    """Classify how `func(new)` merges `new` into meta[key]: 'min' | 'max' | 'first' | 'last' | 'unknown'. Also whether None is ignored."""
-    ps = params_of(func)
-    new = ps[-1]
-    defs = local_defs(func)
+    """Classify how `func(new)` merges `new` into meta[key]: 'min' | 'max' | 'first' | 'last' | 'unknown'. Also whether None is ignored.
+    Decided by value: the method body is evaluated on every (recorded value, new value) pair of a small domain, with and without the sibling timing key present, and the
+    resulting table is compared with the tables of the four operators; a missing (None) new value must leave the context observationally unchanged."""
+    ps = [p for i, p in enumerate(params_of(func)) if not (i == 0 and p in ("self", "cls"))]
     stores = [n for n in walk_body(func) if isinstance(n, ast.Assign) and isinstance(n.targets[0], ast.Subscript) and source.is_const(n.targets[0].slice, key)]
     if not stores:
         return "unknown", False, None
-    none_safe = all(any(pol and u(t) in (f"{new} is not None",) for t, pol in guards(s)) for s in stores)
-    kinds = set()
-    for s in stores:
-        v = s.value
-        gs = [(t, pol) for t, pol in guards(s) if u(t) != f"{new} is not None"]
+    if len(ps) != 1:
+        return "unknown", False, stores[0]
+    new = ps[0]
+    cv = _context_var(source.enclosing_class(func))
+    other = {"request_start": ("request_end", 6.0), "request_end": ("request_start", 4.0)}.get(key)
+    extras = [{}] + ([{other[0]: other[1]}] if other else [])
 
-        def is_cur(e):
-            e2 = defs.get(e.id) if isinstance(e, ast.Name) else e
-            return e2 is not None and ((isinstance(e2, ast.Call) and last_attr(e2.func) == "get" and e2.args and source.is_const(e2.args[0], key))
-                                       or (isinstance(e2, ast.Subscript) and source.is_const(e2.slice, key)))
+    def states():
+        for x in extras:
+            for c in _CUR:
+                yield c, dict(x, **({} if c is _ABSENT else {key: c}))
 
-        def classify_value(v):
-            if isinstance(v, ast.Call) and dotted(v.func) in ("min", "max") and len(v.args) == 2:
-                a, b = v.args
-                if (is_cur(a) and u(b) == new) or (is_cur(b) and u(a) == new):
-                    return dotted(v.func)
-            if isinstance(v, ast.IfExp):
-                # new if current is None else min(current, new)
-                t = v.test
-                c = comparison(t)
-                if c and c[1] in ("is", "is not") and source.is_const(c[2]) and c[2].value is None and is_cur(c[0]):
-                    none_arm, other = (v.body, v.orelse) if c[1] == "is" else (v.orelse, v.body)
-                    if u(none_arm) == new:
-                        return classify_value(other)
-                # new if new < current else current
-                if c and c[1] in ("<", ">", "<=", ">="):
-                    l, op, r = c
-                    if u(l) == new and is_cur(r) and u(v.body) == new and is_cur(v.orelse):
-                        return "min" if op in ("<", "<=") else "max"
-                    if is_cur(l) and u(r) == new and u(v.body) == new and is_cur(v.orelse):
-                        return "max" if op in ("<", "<=") else "min"
-            if u(v) == new:
-                return "store"
-            return "unknown"
+    kinds = set(_REF)
+    for c, st in states():
+        for n in _NEW:
+            try:
+                got = apply_update(func, new, n, st, cv).get(key, _ABSENT)
+            except _Stuck:
+                kinds = set()
+                break
+            kinds = {k for k in kinds if _REF[k](c, n) == got and got is not _ABSENT}
+    none_safe = True
+    for c, st in states():
+        try:
+            after = apply_update(func, new, None, st, cv)
+            same = after.get(key) == st.get(key) and all(apply_update(func, new, n, after, cv).get(key) == apply_update(func, new, n, st, cv).get(key) for n in (3.0, 7.0))
+        except _Stuck:
+            same = False
+        none_safe = none_safe and same
+    return (kinds.pop() if len(kinds) == 1 else "unknown"), none_safe, stores[0]
 
-        k = classify_value(v)
-        if k == "store":
-            # guarded assignment forms
-            pos = [(t, pol) for t, pol in gs]
-            if not pos:
-                k = "last"
-            else:
-                k = "unknown"
-                for t, pol in pos:
-                    if isinstance(t, ast.Compare) and isinstance(t.ops[0], ast.NotIn) and source.is_const(t.left, key) and pol:
-                        k = "first"
-                    # if current is None or new < current
-                    atoms = t.values if isinstance(t, ast.BoolOp) and isinstance(t.op, ast.Or) else [t]
-                    has_none = any(comparison(a) and comparison(a)[1] == "is" and is_cur(comparison(a)[0]) for a in atoms)
-                    for a in atoms:
-                        c = comparison(a)
-                        if c and c[1] in ("<", ">", "<=", ">=") and pol:
-                            l, op, r = c
-                            if u(l) == new and is_cur(r):
-                                k = ("min" if op in ("<", "<=") else "max") if (has_none or len(atoms) == 1) else "unknown"
-                            elif is_cur(l) and u(r) == new:
-                                k = ("max" if op in ("<", "<=") else "min") if (has_none or len(atoms) == 1) else "unknown"
-        kinds.add(k)
-    if len(kinds) == 1:
-        return kinds.pop(), none_safe, stores[0]
-    return "unknown", none_safe, stores[0]
+
+def _bound_context(w) -> str:
+    """the local a `with <client>.new_request_context() as V` statement binds the context object to"""
+    for i in w.items:
+        if "new_request_context" in u(i.context_expr):
+            if isinstance(i.optional_vars, ast.Name):
+                return i.optional_vars.id
+            raise AnchorMissing(f"request context at line {w.lineno} is not bound to a local (with ... as <name>)")
+    raise AnchorMissing(f"with statement at line {w.lineno} opens no request context")
 
 
 def run(chk):
@@ -111,12 +174,13 @@ def run(chk):
         raise AnchorMissing("propagation calls in RequestContextManager.__exit__")
     want = {"request_start": "min", "request_end": "max"}
     seen = set()
+    exdefs = local_defs(ex)
     for c in props:
         f = hm.get(c.func.attr)
         if f is None:
             chk.ob("O18.1", f"propagation via {c.func.attr}", False, c, "unknown holder method")
             continue
-        argt = u(c.args[0]) if c.args else ""
+        argt = source.inline(c.args[0], exdefs) if c.args else ""  # the propagated value, seen through single-assignment locals
         key = "request_start" if "request_start" in argt else ("request_end" if "request_end" in argt else None)
         if key is None:
             chk.ob("O18.1", f"propagated value {argt}", False, c, "not the context's own start/end")
@@ -131,12 +195,13 @@ def run(chk):
     # the manager's properties read the same keys
     for p, key in (("request_start", "request_start"), ("request_end", "request_end")):
         f = mm.get(p)
-        ok = f is not None and any(isinstance(n, ast.Return) and "self.ctx" in u(n.value) and f"'{key}'" in u(n.value) for n in walk_body(f))
+        rets = [source.inline(n.value, local_defs(f)) for n in walk_body(f) if isinstance(n, ast.Return) and n.value is not None] if f is not None else []
+        ok = any("self.ctx" in t and f"'{key}'" in t for t in rets)
         chk.ob("O18.1", f"context property {p} reads key '{key}'", ok, f if f is not None else RCM, "")
     # wire callbacks route through the same merge with the monotonic clock
     for cb, upd in (("on_request_start", "update_request_start"), ("on_request_end", "update_request_end")):
         f = hm.get(cb)
-        ok = f is not None and any(isinstance(n, ast.Call) and last_attr(n.func) == upd and n.args and isinstance(n.args[0], ast.Call) and dotted(n.args[0].func) == "time.perf_counter" for n in walk_body(f))
+        ok = f is not None and any(isinstance(n, ast.Call) and last_attr(n.func) == upd and n.args and pat.is_(source.inline_node(n.args[0], local_defs(f)), "time.perf_counter()") for n in walk_body(f))
         chk.ob("O18.1", f"{cb} records perf_counter() through {upd}", ok, f if f is not None else RCH, "")
 
     from rules.C04 import trace_hook_table
@@ -156,24 +221,24 @@ def run(chk):
     sets = [n for n in ast.walk(ctx.tree) if isinstance(n, ast.Call) and last_attr(n.func) == "set" and isinstance(n.func, ast.Attribute) and last_attr(n.func.value) == cv]
     ok = len(sets) == 1
     fresh = False
-    if ok:
+    if ok and sets[0].args:
         a = sets[0].args[0]
         f = source.enclosing_func(sets[0])
-        d = local_defs(f).get(a.id) if isinstance(a, ast.Name) else a
+        d = local_defs(f).get(a.id) if isinstance(a, ast.Name) and f is not None else a  # the installed value, through the local it was built in
         fresh = isinstance(d, ast.Dict) and not d.keys
     chk.ob("O18.2", "single ContextVar.set, installing a fresh dict", ok and fresh, sets[0] if sets else RCH, f"{len(sets)} set site(s), fresh={fresh}")
-    if sets:
+    if sets and source.enclosing_func(sets[0]) is not None:
         f = source.enclosing_func(sets[0])
         r = [n for n in walk_body(f) if isinstance(n, ast.Return)]
         ok = len(r) == 1 and isinstance(r[0].value, ast.Tuple) and len(r[0].value.elts) == 2
         chk.ob("O18.2", "init returns (dict, token)", ok, f, "")
     ent = mm.get("__enter__")
     ok = ent is not None and any(isinstance(n, ast.Assign) and isinstance(n.targets[0], ast.Tuple) and [u(t) for t in n.targets[0].elts] == ["self.ctx", "self.token"]
-                                 and isinstance(n.value, ast.Call) and last_attr(n.value.func) == "init_request_context" for n in walk_body(ent))
+                                 and pat.is_(source.inline_node(n.value, local_defs(ent)), "E_holder.init_request_context()") for n in walk_body(ent))
     chk.ob("O18.2", "__enter__ stores (ctx, token) from init_request_context()", ok, ent if ent is not None else RCM, "")
     g = cfg_of(ex)
     resets = [c for c in source.calls_in(ex) if last_attr(c.func) == "restore_context"]
-    ok = len(resets) == 1 and u(resets[0].args[0]) == "self.token" and not guards(resets[0]) and all(g.dominated_by_nodes(g.node_of(p), [g.node_of(resets[0])]) for p in props)
+    ok = len(resets) == 1 and len(resets[0].args) == 1 and source.inline(resets[0].args[0], exdefs) == "self.token" and not guards(resets[0]) and all(g.dominated_by_nodes(g.node_of(p), [g.node_of(resets[0])]) for p in props)
     chk.ob("O18.2", "context restored (reset(token)) unconditionally before propagation", ok, resets[0] if resets else ex, "")
     ok = bool(resets) and g.must_pass(g.entry, [g.node_of(r_) for r_ in resets])
     pth = None
@@ -184,22 +249,24 @@ def run(chk):
            "" if ok else "a path leaves the context manager without reset(token): later requests of the task are booked on the stale nested context", path=pth,
            key=f"{_C}:RequestContextManager.__exit__:restore-on-every-exit")
     rc = hm.get("restore_context")
-    ok = rc is not None and any(isinstance(n, ast.Call) and last_attr(n.func) == "reset" and last_attr(n.func.value) == cv and u(n.args[0]) == params_of(rc)[-1] for n in walk_body(rc))
+    ok = rc is not None and any(isinstance(n, ast.Call) and isinstance(n.func, ast.Attribute) and n.func.attr == "reset" and last_attr(n.func.value) == cv and len(n.args) == 1
+                                and source.inline(n.args[0], local_defs(rc)) == params_of(rc)[-1] for n in walk_body(rc))
     chk.ob("O18.2", "restore_context resets the ContextVar with the token", ok, rc if rc is not None else RCH, "")
     for p in props:
-        gs = guards(p)
-        ok = len(gs) == 1 and gs[0][1] and u(gs[0][0]) in ("self.token.old_value != contextvars.Token.MISSING", "self.token.old_value is not contextvars.Token.MISSING")
-        chk.ob("O18.2", "propagation only when a parent context exists", ok, p, f"guards {[(u(t), pol) for t, pol in gs]}")
+        # the only fact guarding the propagation is "the token has an old value" (any orientation / polarity / arm position of the test)
+        fs = pat.fact_nodes(p)
+        ok = len(fs) == 1 and pat.is_(fs[0], "self.token.old_value != contextvars.Token.MISSING", "self.token.old_value is not contextvars.Token.MISSING", "contextvars.Token.MISSING is not self.token.old_value")
+        chk.ob("O18.2", "propagation only when a parent context exists", ok, p, f"guards {[(u(t), pol) for t, pol in guards(p)]}")
     # __exit__ does not swallow exceptions
     rets = [n for n in walk_body(ex) if isinstance(n, ast.Return)]
-    ok = all(source.is_const(r.value, False) or r.value is None for r in rets)
+    ok = all(r.value is None or source.is_const(source.inline_node(r.value, exdefs), False) for r in rets)
     chk.ob("O18.2", "__exit__ never swallows exceptions", ok, ex, "")
     # every reader goes through ContextVar.get()
     for name, f in hm.items():
         for n in walk_body(f):
             if isinstance(n, ast.Subscript) and isinstance(n.value, ast.Name) and isinstance(n.ctx, ast.Store):
                 d = local_defs(f).get(n.value.id)
-                ok = isinstance(d, ast.Call) and last_attr(d.func) == "get" and last_attr(d.func.value) == cv
+                ok = isinstance(d, ast.Call) and isinstance(d.func, ast.Attribute) and d.func.attr == "get" and last_attr(d.func.value) == cv
                 chk.ob("O18.2", f"{name}: timing written into the current context's dict", ok, n, f"{n.value.id} = {u(d) if d is not None else '?'}")
 
     # ---- O18.3 enclosure -------------------------------------------------------------------------------------------------------------------------
@@ -213,7 +280,7 @@ def run(chk):
     ok = len(withs) == 1 and source.enclosing(withs[0], (ast.AsyncFor, ast.For, ast.While)) is L
     chk.ob("O18.3", "executor: one fresh request context per request (inside the loop)", ok, withs[0] if withs else L, "")
     if withs:
-        cvn = withs[0].items[0].optional_vars.id
+        cvn = _bound_context(withs[0])
         runs = [n for n in ast.walk(withs[0]) if isinstance(n, ast.Call) and last_attr(n.func) == "execute_single"]
         chk.ob("O18.3", "executor: runner invoked inside its context", len(runs) == 1, withs[0], "")
         reads = [n for n in ast.walk(L) if isinstance(n, ast.Attribute) and n.attr in ("request_start", "request_end") and isinstance(n.value, ast.Name)]
@@ -231,7 +298,7 @@ def run(chk):
     ok = len(rw) == 1
     chk.ob("O18.3", "per-operation wrapper opens its own context", ok, rw[0] if rw else rt, "")
     if rw:
-        cvn = rw[0].items[0].optional_vars.id
+        cvn = _bound_context(rw[0])
         dels = [n for n in walk_body(rt) if isinstance(n, ast.Call) and u(n.func) == "self.delegate"]
         ok = len(dels) == 1 and rw[0] in list(source.ancestors(dels[0]))
         chk.ob("O18.3", "wrapper: exactly one delegate call, inside the context", ok, dels[0] if dels else rt, f"{len(dels)} delegate call(s)")
@@ -243,7 +310,7 @@ def run(chk):
             from sa.sym import parse_expr, rat_equal
 
             ok = rat_equal(source.inline_node(d["service_time"], rdefs), parse_expr(f"{cvn}.request_end - {cvn}.request_start")) \
-                and source.inline(d.get("request_start"), rdefs) == f"{cvn}.request_start" and source.inline(d.get("request_end"), rdefs) == f"{cvn}.request_end"
+                and all(d.get(k_) is not None and source.inline(d[k_], rdefs) == f"{cvn}.{k_}" for k_ in ("request_start", "request_end"))
         chk.ob("O18.3", "wrapper: service_time == ctx.request_end - ctx.request_start of its own context", ok, st[0] if st else rt, "")
         gr = cfg_of(rt)
         reads = [n for n in walk_body(rt) if isinstance(n, ast.Attribute) and n.attr in ("request_start", "request_end") and isinstance(n.value, ast.Name) and n.value.id == cvn]
